@@ -85,28 +85,38 @@ def run_shards(mod, pid, tier, seed, n_shards, excluded, timeout, phase="search"
                 "excluded": excluded, "scratch": sdir, "out": os.path.join(top, "out%d.json" % i),
                 "phase": phase, "soft_deadline": time.time() + timeout * 0.8,
             }
+            logf = open(os.path.join(top, "log%d.txt" % i), "wb")
+            # output goes to a file, not a pipe: worker processes that outlive the shard (loky) would keep a pipe open
             p = subprocess.Popen(
                 [PY, "-m", "vf.shard", json.dumps(args)],
-                cwd=ROOT, env=child_env(mod), stdout=subprocess.PIPE, stderr=subprocess.STDOUT,
+                cwd=ROOT, env=child_env(mod), stdout=logf, stderr=subprocess.STDOUT,
                 start_new_session=True,
             )
+            logf.close()
             procs.append((i, p, args))
         results = []
         deadline = time.time() + timeout
         errors = []
+
+        def tail(i, n=6000):
+            try:
+                with open(os.path.join(top, "log%d.txt" % i), "rb") as f:
+                    return f.read()[-n:].decode(errors="replace")
+            except OSError:
+                return ""
         for i, p, args in procs:
             try:
-                out, _ = p.communicate(timeout=max(1.0, deadline - time.time()))
+                p.wait(timeout=max(1.0, deadline - time.time()))
             except subprocess.TimeoutExpired:
+                errors.append("shard %d timed out after %ss\n%s" % (i, timeout, tail(i, 3000)))
+                continue
+            finally:
                 try:
-                    os.killpg(p.pid, 9)
+                    os.killpg(p.pid, 9)   # the shard and any worker process it left behind
                 except OSError:
                     pass
-                out, _ = p.communicate()
-                errors.append("shard %d timed out after %ss\n%s" % (i, timeout, out.decode(errors="replace")[-3000:]))
-                continue
             if p.returncode != 0 or not os.path.exists(args["out"]):
-                errors.append("shard %d exit %s\n%s" % (i, p.returncode, out.decode(errors="replace")[-6000:]))
+                errors.append("shard %d exit %s\n%s" % (i, p.returncode, tail(i)))
                 continue
             with open(args["out"]) as f:
                 results.append(json.load(f))
@@ -149,13 +159,22 @@ def replay_inline(mod, spec):
     with tempfile.TemporaryDirectory(prefix="vf-rp-", dir=scratch_base()) as td:
         args = {"pid": mod.PROPERTY_ID, "spec": spec, "scratch": td, "out": os.path.join(td, "out.json")}
         to = getattr(mod, "REPLAY_TIMEOUT", 300)
+        logp = os.path.join(td, "replay.log")
+        with open(logp, "wb") as logf:
+            p = subprocess.Popen([PY, "-m", "vf.shard", "--replay", json.dumps(args)], cwd=ROOT, env=child_env(mod),
+                                 stdout=logf, stderr=subprocess.STDOUT, start_new_session=True)
         try:
-            p = subprocess.run([PY, "-m", "vf.shard", "--replay", json.dumps(args)], cwd=ROOT, env=child_env(mod),
-                               capture_output=True, text=True, timeout=to, start_new_session=True)
+            p.wait(timeout=to)
         except subprocess.TimeoutExpired:
             return "error", "replay timed out after %ss" % to, None
+        finally:
+            try:
+                os.killpg(p.pid, 9)
+            except OSError:
+                pass
         if p.returncode != 0 or not os.path.exists(args["out"]):
-            return "error", (p.stdout + p.stderr)[-4000:], None
+            with open(logp, "rb") as f:
+                return "error", f.read()[-4000:].decode(errors="replace"), None
         with open(args["out"]) as f:
             r = json.load(f)
         return r["status"], r.get("msg"), r.get("signature")
@@ -241,11 +260,11 @@ def main(argv=None):
             if status == "error":
                 raise HarnessError("witness replay failed: %s" % msg)
             if e["status"] == "known":
-                if status == "violation":
-                    known_lines.append("KNOWN-FINDING: property=%s %s" % (pid, e["what"]))
-                    excluded.append(e["signature"])
-                else:
-                    log("note: known finding no longer reproduces: %s" % e["what"])
+                # a listed finding is reported on every run and its root-cause class is excluded from the
+                # search whether or not the (possibly timing dependent) witness reproduced this time
+                known_lines.append("KNOWN-FINDING: property=%s %s%s" % (
+                    pid, e["what"], "" if status == "violation" else " [witness did not reproduce in this run]"))
+                excluded.append(e["signature"])
             else:  # fixed: suppresses nothing
                 if status == "violation":
                     path = save_replay(pid, {"spec": e["witness_spec"], "signature": e.get("signature"), "msg": msg})
